@@ -8,7 +8,12 @@ PROP = {'rule': 'rapid-generated cases. history: rapid state machine over one no
          'deleted)); non-trivial = a pod received a duplicate event and was later released, or an inventory refresh happened between a '
          "pod's allocation and its release. allocate: one (inventory, constructed usage, request) triple; non-trivial = some device is "
          'partly used / unhealthy / zero AND the request sits at the feasibility boundary (exactly enough or one device short) or needs '
-         'several devices. distinct = FNV-64 fingerprint of the full history / triple.',
+         'several devices. pluginHistory: state machine through the Plugin entry points on a node seeded with resident pods: one scheduling '
+         'cycle PreFilter/Filter/[event: another pod bound elsewhere, pod deleted, device lost]/Reserve for ordinary pods and pods with a '
+         'designated allocation (annotation + scheduling hint), preemption dry run (clone state, RemovePod over a permutation of victims, '
+         'Filter, reprieve AddPod/RemovePod), Reserve -> bound update -> Unreserve (bind failed client-side, persisted) -> 1-3 ordinary '
+         'updates, release, refresh; non-trivial = dry run with >=3 victims, or designated pod with an event between Filter and Reserve, '
+         'or the unreserve-of-bound-pod sequence. distinct = FNV-64 fingerprint of the full history / triple.',
  'assumptions': ['GPU devices report gpu-core=100, gpu-memory-ratio=100 and gpu-memory (2^30..2^36 bytes) together, or nothing (zero/unhealthy); '
                  'RDMA/FPGA report their single resource',
                  'requests are PreFilter-valid (ValidateDeviceRequest) and carry no device hints, joint-allocation, selectors, VF requests, '
@@ -18,15 +23,20 @@ PROP = {'rule': 'rapid-generated cases. history: rapid state machine over one no
                  'unrequested view fits too (rounded up), validity (success => free >= request) uses the requested view only',
                  'events for one pod carry the allocation that was committed for it (Reserve result == annotation written by PreBind); '
                  'pod names are never reused',
+                 'after Unreserve of a pod whose binding was persisted, the ledger is only required to account the pod again from its next '
+                 'informer event on (the Unreserve and the following updates are one atomic step of the generated history)',
+                 'a pod with a designated allocation may use only the designated devices, at most the designated amount of each; the '
+                 'allocation oracle is evaluated at Reserve (the commit), dry-run Filter verdicts are only required not to refuse a feasible pod',
                  "'used <= total' is asserted everywhere only while the history contains no refresh that takes capacity away (device "
                  'removed / unhealthy / total reduced / GPU memory size changed / Device CR deleted); after such a refresh used may '
                  'legitimately exceed total and free is expected to be clamped at 0; an allocation itself must never push a resource it '
                  'was asked for beyond the total'],
  'units': [{'name': 'deviceshare',
             'pkg': 'pkg/scheduler/plugins/deviceshare',
-            'files': ['C07/c07_device_test.go'],
+            'files': ['C07/c07_device_test.go', 'C07/c07_plugin_test.go'],
             'tests': [{'run': 'TestVerifC07History', 'quick': 2000, 'thorough': 8000, 'steps': 30},
-                      {'run': 'TestVerifC07Allocate', 'quick': 8000, 'thorough': 50000}]}],
+                      {'run': 'TestVerifC07Allocate', 'quick': 8000, 'thorough': 50000},
+                      {'run': 'TestVerifC07PluginHistory', 'quick': 2000, 'thorough': 8000, 'steps': 20}]}],
  'manifest': {'technique': 'property-based testing (rapid): model-based state machine over the device cache with a ledger oracle after every '
                            'step, plus generated (inventory, usage, request) triples with a validity + completeness oracle for single allocations',
               'text': 'Generated-history search: allocate (real AutopilotAllocator/GPUAllocator, both the direct and the nodeDevice.filter path) + '
